@@ -8,13 +8,18 @@
     pushes, every sink write schedule on which the calls return Ok; AND the crate's own code around
     the compression libraries (writer/compression.rs: the three grow-the-buffer encode loops, the
     snappy framing and CRC check), for EVERY library meeting a stated streaming contract
-    (model/CodecLoop.v), which hook H3 validates against the real libraries on every run. The
-    libraries themselves (deflate, bzip2, snappy, xz, zstandard and their levels) and the streaming
-    decoders of the reader are outside the model: decided on the crate by the correspondence run. *)
+    (model/CodecLoop.v), which hook H3 validates against the real libraries on every run; AND the
+    reader's code around the streaming decoders (reader/decompression.rs, model/DecodeLoop.v: BufReader
+    over the decoder over Take, the end-of-block check that drives the decoder to its end, the snappy
+    block), for EVERY decoder meeting `stream_decoder_contract`, every BufReader capacity >= 1, every
+    chunking of the source, which hook H4 validates against the real decoders on every run. The
+    libraries themselves (deflate, bzip2, snappy, xz, zstandard and their levels) are outside the
+    model: decided on the crate by the correspondence run. *)
 From Coq Require Import List NArith ZArith.
 Require Import Base Schema Sval Ser Target Reader De AvroValue Encoding Denote Wf VectoredWrite Container.
 Require Import ContainerReadProofs ContainerHeaderProofs ContainerChunkProofs.
 Require Import CodecLoop CodecLoopProofs.
+Require Import DecodeLoop DecodeLoopProofs DecodeLoopDe DecodeLoopToy.
 Import ListNotations.
 
 (* a history: values (serialized through the writer), pushes of pre-serialized values, flushes *)
@@ -204,3 +209,85 @@ Theorem C05_snappy_short_block :
   forall (raw_dec : bytes -> option bytes) (crc32 : bytes -> N) (blk : bytes),
   (length blk < 4)%nat -> snappy_decode raw_dec crc32 blk = Err EData.
 Proof. exact snappy_short_block. Qed.
+
+(** ** The reader side: compressed blocks (model/DecodeLoop.v) *)
+
+(* a block as the writer lays it out -- the complete compressed stream z of the encodings of the count values,
+   then the sync marker -- read through BufReader(capacity) over ANY streaming decoder meeting the contract over
+   Take(|z|), from a slice or a source delivering ANY chunking (ch), whatever reads the deserializer issues
+   (policy): exactly the values; the end-of-block check passes -- also when the decoder was never read (zero-byte
+   datums) and when it lags behind the source --; the source is left behind the sync marker.
+   Value decoder: De.de on the decompressed bytes (de_vdec; the abstraction is stated in DecodeLoop.v) *)
+Theorem C05_compressed_block_read_back :
+  forall (D : Type) (dread : D -> bytes -> option chunkst -> nat -> dres * D) (policy : nat -> nat -> option nat)
+         Sc cfg root (z : bytes) (d0 : D) (vs : list avalue) sync rest ch cap fuel s,
+  schema_wf Sc = true -> Forall (value_ok Sc cfg root) vs -> length sync = 16%nat ->
+  stream_decoder_contract D dread z (encs Sc root vs) z d0 -> (1 <= cap)%nat -> (length (encs Sc root vs) < fuel)%nat ->
+  block_open D d0 (z ++ sync ++ rest) ch (length z) cap = Some s ->
+  exists ch', block_run D dread policy dval (de_vdec Sc cfg root) fuel (length vs) sync s
+              = (map (dval_any Sc root) vs, BDone rest ch').
+Proof. exact compressed_block_read_back_de. Qed.
+
+(* the same for any value decoder that decodes the encoding of a written value whatever follows it *)
+Theorem C05_compressed_block_read_back_any_values :
+  forall (D : Type) (dread : D -> bytes -> option chunkst -> nat -> dres * D) (policy : nat -> nat -> option nat)
+         (V : Type) (vdec : bytes -> result V * nat) (W : Type) (P : W -> Prop) (enc1 : W -> bytes) (val : W -> V),
+  vdec_ok V vdec W P enc1 val ->
+  forall (z : bytes) (d0 : D) (vs : list W) sync rest ch cap fuel s,
+  Forall P vs -> length sync = 16%nat -> stream_decoder_contract D dread z (flat_map enc1 vs) z d0 ->
+  (1 <= cap)%nat -> (length (flat_map enc1 vs) < fuel)%nat ->
+  block_open D d0 (z ++ sync ++ rest) ch (length z) cap = Some s ->
+  exists ch', block_run D dread policy V vdec fuel (length vs) sync s = (map val vs, BDone rest ch').
+Proof. exact compressed_block_read_back. Qed.
+
+(* snappy: the block written by the writer-side framing reads back *)
+Theorem C05_snappy_block_read_back :
+  forall (raw_enc : bytes -> bytes) (raw_dec : bytes -> option bytes) (crc32 : bytes -> N),
+  (forall x, raw_dec (raw_enc x) = Some x) -> (forall x, crc32 x < 4294967296) ->
+  forall (V : Type) (vdec : bytes -> result V * nat) (W : Type) (P : W -> Prop) (enc1 : W -> bytes) (val : W -> V),
+  vdec_ok V vdec W P enc1 val ->
+  forall vs sync rest, Forall P vs -> length sync = 16%nat ->
+  snappy_run raw_dec crc32 V vdec (length vs) sync
+             (snappy_encode raw_enc crc32 (flat_map enc1 vs) ++ sync ++ rest)
+             (length (snappy_encode raw_enc crc32 (flat_map enc1 vs)))
+  = Some (map val vs, BDone rest None).
+Proof. exact snappy_block_read_back. Qed.
+
+(* the model runs: a small concrete codec whose decoder lags behind its output, read back through capacities
+   1, 2, 8, from a slice and from 1- / 2-byte chunks, with buffered and bypass reads, and zero-byte datums *)
+Theorem C05_decoder_model_runs :
+  let x := [5; 6; 7] in
+  Forall (fun r => is_done r x [7])
+    [toy_run x [] 3 7 None 1 toy_pol_buffered; toy_run x [] 3 7 None 2 toy_pol_buffered;
+     toy_run x [] 3 7 None 8 toy_pol_buffered; toy_run x [] 3 7 None 1 toy_pol_direct;
+     toy_run x [] 3 7 (Some (mkCh 1 [] 1)) 1 toy_pol_buffered; toy_run x [] 3 7 (Some (mkCh 1 [] 1)) 8 toy_pol_buffered;
+     toy_run x [] 3 7 (Some (mkCh 2 [] 2)) 2 toy_pol_direct; toy_run x [] 3 7 (Some (mkCh 2 [3] 1)) 8 toy_pol_direct]
+  /\ Forall (fun r => is_done r [tt; tt; tt] [])
+    [toy_zero_run 3 None 1; toy_zero_run 3 None 8; toy_zero_run 3 (Some (mkCh 1 [] 1)) 1; toy_zero_run 3 (Some (mkCh 1 [] 1)) 8].
+Proof. exact toy_read_back. Qed.
+
+(* the end-of-block check before commit 8463ea9 ("Take limit = 0" only) rejects a valid block of zero-byte datums
+   (the decoder was never read) and a valid block whose decoder lags, and accepts a lowered count; the check as it
+   is now decides the three correctly *)
+Theorem C05_end_check_before_fix_refuted :
+  option_map (fun s => fst (block_end_before_fix toyst s)) (block_open toyst TRun (toy_enc [] ++ toy_sync) None 1 8) = Some EndTakeLeft /\
+  option_map (fun s => fst (block_end toyst toy_dread s)) (block_open toyst TRun (toy_enc [] ++ toy_sync) None 1 8) = Some EndOk /\
+  option_map (fun s => fst (block_end_before_fix toyst s)) (toy_state_after [5; 6; 7] 3 None 1) = Some EndTakeLeft /\
+  option_map (fun s => fst (block_end toyst toy_dread s)) (toy_state_after [5; 6; 7] 3 None 1) = Some EndOk /\
+  option_map (fun s => fst (block_end_before_fix toyst s)) (toy_state_after [5; 6; 7] 2 None 8) = Some EndOk /\
+  option_map (fun s => fst (block_end toyst toy_dread s)) (toy_state_after [5; 6; 7] 2 None 8) = Some EndLeftover.
+Proof. exact end_check_before_fix_refuted. Qed.
+
+(* the decoder contract is not vacuous: the small codec of DecodeLoop.v (every data byte preceded by 1, end marker 0;
+   its decoder works on what fill_buf shows, stops when dst is full and so lags behind its output) meets it for
+   EVERY data x and EVERY content a of the Take that agrees with the stream -- the stream, any cut of it, the stream
+   followed by any bytes -- under any request sizes and chunk plans; so blocks of it read back *)
+Theorem C05_decoder_contract_inhabited : forall x a, agree a (toy_enc x) ->
+  stream_decoder_contract toyst toy_dread (toy_enc x) x a TRun.
+Proof. exact toy_contract. Qed.
+
+Theorem C05_toy_block_read_back : forall (x : bytes) policy sync rest ch cap fuel s,
+  length sync = 16%nat -> (1 <= cap)%nat -> (length x < fuel)%nat ->
+  block_open toyst TRun (toy_enc x ++ sync ++ rest) ch (length (toy_enc x)) cap = Some s ->
+  exists ch', block_run toyst toy_dread policy N byte_vdec fuel (length x) sync s = (x, BDone rest ch').
+Proof. exact toy_block_read_back. Qed.
